@@ -646,9 +646,9 @@ def trace_lines(x):
     return per, idx
 
 
-def validate(ctx, execs, tag, chunk=20000):
+def validate(ctx, execs, tag, chunk=8000):
     """-> {index in execs: (event index, property)} for rejected executions
-    (one single-pass TLC run per 20 000 executions)."""
+    (one single-pass TLC run per 8 000 executions: the deserialised trace of 20 000 took a 6 GB heap to its limit when two checks ran side by side)."""
     allh = [(i, x) for i, x in enumerate(execs) if x.events is not None]
     bad = {}
     for k in range(0, len(allh), chunk):
